@@ -82,6 +82,23 @@ func (w *World) UseV1Proof(fce types.FileContractElement, cur types.FileContract
 	return Use{Name: "v1proof", V1: &txn, Resolves: true, SuppFC: []types.FileContractElement{copyFCE(fce)}}, true
 }
 
+// UseV1SCAsProofFee spends p entirely as the miner fee of a storage proof transaction for contract fce (a proof
+// transaction may carry inputs and fees, nothing else).
+func (w *World) UseV1SCAsProofFee(p types.SiacoinElement, fce types.FileContractElement, cur types.FileContract) (Use, bool) {
+	u, ok := w.UseV1Proof(fce, cur)
+	if !ok {
+		return Use{}, false
+	}
+	c := w.Keys.ClassOf(p.SiacoinOutput.Address)
+	u.V1.SiacoinInputs = []types.SiacoinInput{{ParentID: p.ID, UnlockConditions: w.Keys.UCFor(c)}}
+	u.V1.MinerFees = []types.Currency{p.SiacoinOutput.Value}
+	u.V1.Signatures = nil
+	w.SignV1Whole(u.V1)
+	u.Name = "v1spend-as-proof-fee"
+	u.SuppSC = []types.SiacoinElement{p.Copy()}
+	return u, true
+}
+
 // UseV2Revise revises a v2 contract by bumping the revision number by delta.
 func (w *World) UseV2Revise(fce types.V2FileContractElement, cur types.V2FileContract, delta uint64) Use {
 	rev := cur
